@@ -72,3 +72,75 @@ Lemma common_tags sfx : go_common (s "refs/tags/"%string ++ sfx) = true.
 Proof. reflexivity. Qed.
 Lemma common_remotes sfx : go_common (s "refs/remotes/"%string ++ sfx) = true.
 Proof. reflexivity. Qed.
+
+(* ------------------------------------------------------------ git's rule on whole families of paths *)
+
+(* ".lock" contains no '/' *)
+Lemma lock_noslash : forallb (fun c => negb (c =? SL)) (s ".lock"%string) = true.
+Proof. reflexivity. Qed.
+
+Lemma nth_skipn (A : Type) (l : list A) : forall k j d, nth j (skipn k l) d = nth (k + j) l d.
+Proof.
+  induction l as [|x l IH]; intros [|k] j d; cbn; try reflexivity.
+  - now destruct j.
+  - apply IH.
+Qed.
+
+(* stripping a .lock suffix never reaches into a prefix that ends with '/' *)
+Lemma strip_lock_prefix pre rest :
+  last pre 0 = SL -> pre <> [] ->
+  exists rest', strip_lock (pre ++ rest) = pre ++ rest'.
+Proof.
+  intros Hl Hne. unfold strip_lock.
+  set (p := pre ++ rest). set (n := List.length p).
+  destruct (Nat.ltb 5 n && beqb (skipn (n - 5) p) (s ".lock"%string)) eqn:E; [|now exists rest].
+  apply andb_true_iff in E as [E1 E2]. apply Nat.ltb_lt in E1. apply beqb_eq in E2.
+  set (k := List.length pre).
+  assert (Hk : (0 < k)%nat) by (destruct pre; [congruence|cbn; lia]).
+  assert (Hn : n = (k + List.length rest)%nat) by (unfold n, p, k; now rewrite app_length).
+  assert (Hge : (k <= n - 5)%nat).
+  { destruct (le_lt_dec k (n - 5)) as [H|H]; [exact H|exfalso].
+    (* the '/' at index k-1 would be one of the last five bytes *)
+    assert (Hnth : nth (k - 1) p 0 = SL).
+    { unfold p. rewrite app_nth1 by lia. rewrite <- Hl. unfold k.
+      clear - Hne. induction pre as [|x pre IH]; [congruence|].
+      destruct pre as [|y pre]; [reflexivity|]. cbn [List.length last]. 
+      replace (S (S (List.length pre)) - 1)%nat with (S (List.length (y :: pre) - 1)) by (cbn; lia).
+      cbn [nth]. apply IH. discriminate. }
+    assert (Hj : nth (k - 1 - (n - 5)) (skipn (n - 5) p) 0 = SL).
+    { rewrite nth_skipn. replace (n - 5 + (k - 1 - (n - 5)))%nat with (k - 1)%nat by lia. exact Hnth. }
+    rewrite E2 in Hj.
+    assert (Hlt : (k - 1 - (n - 5) < 5)%nat) by lia.
+    destruct (k - 1 - (n - 5))%nat as [|[|[|[|[|j]]]]]; cbn in Hj; try discriminate; lia. }
+  exists (firstn (n - 5 - k) rest). unfold p. rewrite firstn_app. fold k.
+  rewrite firstn_all2 by (fold k; lia). reflexivity.
+Qed.
+
+Ltac family pre :=
+  intros rest;
+  destruct (strip_lock_prefix (s pre) rest eq_refl ltac:(discriminate)) as [rest' E];
+  unfold git_common; rewrite E; reflexivity.
+
+Lemma fam_objects : forall rest, git_common (s "objects/"%string ++ rest) = true.
+Proof. family "objects/"%string. Qed.
+Lemma fam_heads : forall rest, git_common (s "refs/heads/"%string ++ rest) = true.
+Proof. family "refs/heads/"%string. Qed.
+Lemma fam_tags : forall rest, git_common (s "refs/tags/"%string ++ rest) = true.
+Proof. family "refs/tags/"%string. Qed.
+Lemma fam_remotes : forall rest, git_common (s "refs/remotes/"%string ++ rest) = true.
+Proof. family "refs/remotes/"%string. Qed.
+Lemma fam_hooks : forall rest, git_common (s "hooks/"%string ++ rest) = true.
+Proof. family "hooks/"%string. Qed.
+Lemma fam_logs_heads : forall rest, git_common (s "logs/refs/heads/"%string ++ rest) = true.
+Proof. family "logs/refs/heads/"%string. Qed.
+Lemma fam_worktrees : forall rest, git_common (s "worktrees/"%string ++ rest) = true.
+Proof. family "worktrees/"%string. Qed.
+(* the deviating families, for every suffix *)
+Lemma fam_bisect : forall rest, git_common (s "refs/bisect/"%string ++ rest) = false.
+Proof. family "refs/bisect/"%string. Qed.
+Lemma fam_worktree_refs : forall rest, git_common (s "refs/worktree/"%string ++ rest) = false.
+Proof. family "refs/worktree/"%string. Qed.
+Lemma fam_rewritten : forall rest, git_common (s "refs/rewritten/"%string ++ rest) = false.
+Proof. family "refs/rewritten/"%string. Qed.
+Lemma fam_logs_bisect : forall rest, git_common (s "logs/refs/bisect/"%string ++ rest) = false.
+Proof. family "logs/refs/bisect/"%string. Qed.
